@@ -13,4 +13,5 @@ namespace c18
   void tetra_a(vf::Tape&, vf::Ctx&, int idx, bool flt, bool big);
   void tetra_b(vf::Tape&, vf::Ctx&, int idx, bool flt, bool big);
   void global_case(vf::Tape&, vf::Ctx&, bool big);
+  void cfmap_case(vf::Tape&, vf::Ctx&);
 }
